@@ -4,6 +4,7 @@ import BstreamVerif.Props.C06
 import BstreamVerif.Props.C01
 import BstreamVerif.Lemmas.Seam
 import BstreamVerif.Lemmas.StepCheckSound
+import BstreamVerif.Lemmas.StackConsumer
 /-!
 # C07 — file-to-live handoff is seamless: exactly-once, in order, no dropped undo
 
@@ -359,6 +360,30 @@ theorem resolver_events_leave_nothing_pending (files : List Resolver.ForkFile) (
   simp only [Option.bind_some]
   exact run_fileEvs cb.id post hpost
 
+
+/-- **what a stream consumer with the default step filter sees**: a stream started by block number delivers, after its
+    step filter (New, new+irreversible, Undo — `C13.default_filter`), the merged blocks, the hub's burst and the hub's
+    later events; the consumer that pushes on New / new+irreversible and pops on Undo, starting on the block the
+    stream rests on with nothing held, accepts that whole sequence and at the end (indeed at every moment,
+    `SC.chain_at_every_moment`) holds one parent-linked chain rooted there: every canonical block from the start on
+    exactly once and in order, every forked block undone before its replacement arrives. -/
+theorem handoff_by_number_default_filter (cfg : Forkable.Config) (hnew : cfg.matches .new = true)
+    (hundo : cfg.matches .undo = true) (hirr : cfg.matches .irreversible = true)
+    (U : Id → Option Blk) (hU : UOK U) (F : List Id) (s : FState) (P : List Id) (hI : Inv s P) (hJ : Inv2 U F s.db)
+    (h : Blk) (seg : List Entry) (hs : headSegment s = some (h, seg))
+    (hnum : ∀ e, s.db.find h.id = some e → e.blk.num = h.num)
+    (n : Nat) (hn : n ≤ s.db.libRef.num) (hex : ∃ e ∈ seg, e.blk.num = n)
+    (r0 : Id) (fb : List Blk) (hfile : linkedBlks r0 fb)
+    (hjoin : ∀ e, (seg.dropWhile (fun e => e.blk.num != n)).head? = some e → e.blk.parent = topOf r0 (fb.map (·.id)))
+    (hist : List Blk) (hin : ∀ b ∈ hist, U b.id = some b) (hL : Props.C01.LibHistOK cfg s hist) :
+    ∃ burst c', blocksFromNum s n = some burst ∧
+      (⟨r0, []⟩ : SC).runSB (((fb.map (Resolver.fileEv .newIrreversible) ++ burst ++ (runHistory cfg s hist).2).map sbOf).filter
+          seenByPushPop) = some c' ∧ c'.Chain := by
+  obtain ⟨burst, P', hb, _, hrun, _⟩ := handoff_by_number_is_seamless cfg hnew hundo hirr U hU F s P hI hJ h seg hs hnum n hn hex
+    r0 fb hfile hjoin hist hin hL
+  have hf : Follows ⟨r0, []⟩ ⟨r0, []⟩ := ⟨[], [], rfl, rfl, rfl⟩
+  obtain ⟨c', hr, _, hc⟩ := follows_run _ _ ⟨r0, []⟩ _ hf trivial hrun
+  exact ⟨burst, c', hb, by rw [SC.runSB_filter]; exact hr, hc⟩
 
 end Seamless
 
